@@ -22,6 +22,8 @@ type Out struct {
 	GPanic string // a panic that reached the top of a library goroutine
 	InNew  bool   // Err / Panic happened in New
 	Res    *vrt.Result
+	First  string   // with ReExec: the first result, rendered
+	Again  []string // with ReExec: the results of the second and third Exec of the same Query
 }
 
 func (o *Out) Failed() bool { return o.Err != nil || o.Panic != "" }
@@ -84,7 +86,25 @@ func Call(o *Out, doc map[string]any, sql string, opts ...genql.QueryOption) {
 	stage = 1
 	rows, err := q.Exec()
 	o.Rows, o.Err = rows, err
+	if ReExec && err == nil {
+		// the same Query object executed again (and again): rendered results of the repetitions
+		first := Render(rows)
+		for k := 0; k < 2; k++ {
+			rows2, err2 := q.Exec()
+			if err2 != nil {
+				o.Again = append(o.Again, "error: "+err2.Error())
+				continue
+			}
+			o.Again = append(o.Again, Render(rows2))
+		}
+		o.First = first
+	}
 }
+
+// ReExec makes Call execute every successfully executed Query object two more times; Out.First and
+// Out.Again hold the rendered results (rendered at once: a repetition may share structure with
+// the first result).
+var ReExec bool
 
 // Reader executes ExecReader with panic capture.
 func Reader(doc any, selector string) (v any, err error, pan string) {
